@@ -130,6 +130,9 @@ class PipeScenario(Scenario):
         if name == "timed_window":
             return up.timed_window(a[0])
         if name == "timed_window_unique":
+            if a[1] == "idx0":
+                # a key that is not callable: taken by indexing, on (parity, x) pairs made and unmade around the node
+                return up.map(lambda x: (x % 2, x)).timed_window_unique(a[0], key=0, keep=a[2]).map(lambda b: tuple(q[1] for q in b))
             return up.timed_window_unique(a[0], key=parity if a[1] == "parity" else (lambda x: x), keep=a[2])
         if name == "partition":
             kw = {}
